@@ -72,8 +72,20 @@ impl ReadHalf {
 #[verifier::external_body] pub struct WriteError { _p: u8 }
 
 // opaque
-#[verifier::external_body] pub struct Client { _p: u8 }
+// selium::Client = { connection: Arc<Mutex<ClientConnection>>, backoff_strategy }: the shared connection handle and the retry policy
+#[verifier::external_body] pub struct SharedConnection { _p: u8 }
+#[verifier::external_body] #[verifier::accept_recursive_types(T)] pub struct ConnGuardOf<T> { _p: Vec<T> }
+impl SharedConnection { #[verifier::external_body] pub async fn lock<T>(&self) -> (r: ConnGuardOf<T>) { unimplemented!() } }
+#[verifier::external_body] pub struct BackoffStrategy { _p: u8 }
+pub struct Client { pub connection: SharedConnection, pub backoff_strategy: BackoffStrategy }
+impl Clone for Client { #[verifier::external_body] fn clone(&self) -> (r: Client) ensures r == *self { unimplemented!() } }
+// keep_alive::pubsub::KeepAlive::new(stream, backoff): wraps the stream (state machine verified in unit client_keepalive)
+pub struct VKeepAlive<T> { pub inner: T }
+#[verifier::external_body] pub fn vx_keepalive_new<T>(stream: T, b: BackoffStrategy) -> (r: VKeepAlive<T>) ensures r.inner == stream { unimplemented!() }
+// Vec::with_capacity for a capacity chosen by the local configuration (not by a peer)
+#[verifier::external_body] pub fn vx_vec_with_config_capacity<T>(n: usize) -> (r: Vec<T>) ensures r@ == Seq::<T>::empty() { unimplemented!() }
 #[verifier::external_body] pub struct PublisherPayload { _p: u8 }
+impl Clone for PublisherPayload { #[verifier::external_body] fn clone(&self) -> (r: PublisherPayload) ensures r == *self { unimplemented!() } }
 #[verifier::external_body] pub struct SubscriberPayload { _p: u8 }
 #[verifier::external_body] pub fn vx_vec_take_all<T>(v: &mut Vec<T>) -> (r: Vec<T>) ensures r@ == old(v)@, final(v)@ == Seq::<T>::empty(), r@.len() <= usize::MAX { unimplemented!() }
 // <[T]>::reverse reached through Vec's DerefMut
